@@ -2,6 +2,7 @@ package interpreter
 
 import (
 	"fmt"
+	pAst "github.com/smarthome-go/homescript/v3/homescript/parser/ast"
 
 	"github.com/smarthome-go/homescript/v3/homescript/analyzer/ast"
 	"github.com/smarthome-go/homescript/v3/homescript/interpreter/value"
@@ -39,6 +40,11 @@ func (self *Interpreter) importItem(node ast.AnalyzedImport) *value.Interrupt {
 		}
 
 		for _, importItem := range node.ToImport {
+			// types, templates and triggers only exist during analysis
+			if importItem.Kind != pAst.IMPORT_KIND_NORMAL {
+				continue
+			}
+
 			val := self.modules[node.FromModule.Ident()].scopes[0][importItem.Ident.Ident()]
 			self.addVar(importItem.Ident.Ident(), *val)
 		}
@@ -48,6 +54,11 @@ func (self *Interpreter) importItem(node ast.AnalyzedImport) *value.Interrupt {
 
 	// since the module was not found, source the imports from the builtin modules
 	for _, toImport := range node.ToImport {
+		// types, templates and triggers only exist during analysis: there is no value to import (the VM skips them, too)
+		if toImport.Kind != pAst.IMPORT_KIND_NORMAL {
+			continue
+		}
+
 		val, found := self.Executor.GetBuiltinImport(node.FromModule.Ident(), toImport.Ident.Ident())
 		if !found {
 			return value.NewRuntimeErr(
